@@ -3,6 +3,7 @@ import Darling.Driver.C05
 import Darling.Driver.FM
 import Darling.Driver.C18
 import Darling.Driver.C19
+import Darling.Driver.Recv
 import Darling.Generated.Facts
 /-
   `darling_model`: reads `<prop> <case-id> <sexp>` lines on stdin, answers `<case-id> <answer>`.
@@ -17,6 +18,8 @@ def splitHead (s : String) : String × String :=
 
 structure Params where
   thr : Nat := Generated.threshold   -- regenerated from the source; a `param thr` line overrides
+  corpus : Driver.Recv.Corpus := []  -- receiver declarations (`decl` lines)
+  global : Oracle := {}              -- oracle rows valid for every case (`oracle` lines)
 
 def answer (p : Params) (prop : String) (c : Sexp) : String :=
   match prop with
@@ -25,6 +28,7 @@ def answer (p : Params) (prop : String) (c : Sexp) : String :=
   | "fm" => Driver.FM.answer c
   | "c18" => Driver.C18.answer c
   | "c19" => Driver.C19.answer c
+  | "recv" => Driver.Recv.answer p.corpus p.global p.thr c
   | _ => "bad-prop"
 
 partial def loop (h : IO.FS.Stream) (out : IO.FS.Stream) (p : Params) : IO Unit := do
@@ -37,6 +41,19 @@ partial def loop (h : IO.FS.Stream) (out : IO.FS.Stream) (p : Params) : IO Unit 
     match k, v.toNat? with
     | "thr", some n => loop h out { p with thr := n }
     | _, _ => loop h out p
+  else if prop = "oracle" then
+    match Sexp.parse ("(oracle " ++ rest ++ ")") with
+    | some row =>
+        (match Driver.FM.oracleOf? row with
+         | some o => loop h out { p with global := p.global.merge o }
+         | none => loop h out p)
+    | none => loop h out p
+  else if prop = "decl" then
+    let (name, r2) := splitHead rest
+    let (trait, payload) := splitHead r2
+    match Sexp.parse payload with
+    | some s => loop h out { p with corpus := Driver.Recv.addDecl p.corpus name trait s }
+    | none => loop h out p
   else
     let (id, payload) := splitHead rest
     let ans := match Sexp.parse payload with
